@@ -209,8 +209,9 @@ func Gofmt(p *Prog) error {
 // C13: respelling of use-site type expressions into identical types
 
 type RespellInfo struct {
-	LocalAlias, ThirdPkgAlias, Paren, ImportRename, Recv int
-	Sites                                                map[int]bool // site ids whose spelling changed
+	LocalAlias, ThirdPkgAlias, Paren, ImportRename, Recv, FuncLocalAlias, AliasChain int
+	FuncLocalSites                                                                   []int        // sites whose mention goes through an alias declared right before them
+	Sites                                                                            map[int]bool // site ids whose spelling changed
 }
 
 // allRefs lists every type mention that may be respelled, with the file and
@@ -222,6 +223,7 @@ type refSlot struct {
 	parenOK bool
 	aliasOK bool
 	recv    bool // a method receiver: parentheses and local aliases only
+	inBody  bool // a statement inside a function body: a function-local alias can be declared right before it
 }
 
 func (p *Prog) refSlots() []refSlot {
@@ -232,6 +234,10 @@ func (p *Prog) refSlots() []refSlot {
 			return
 		}
 		slot := refSlot{ref: s.Ref, file: si.Ctx.File, site: s.ID, aliasOK: true}
+		switch s.Kind {
+		case "lit", "litptr", "new", "var", "var2", "varptr", "varblank", "elided.slice", "elided.ptrslice", "elided.map", "conv", "var.composite", "lit.composite":
+			slot.inBody = si.Ctx.Func != nil && s.Form != "pkgvar" && s.Form != "return"
+		}
 		switch s.Kind {
 		case "param", "result", "field", "var", "var2", "varptr", "varblank", "varinit", "new", "conv":
 			slot.parenOK = true
@@ -277,6 +283,13 @@ func Respell(t *rapid.T, p *Prog) RespellInfo {
 		}
 		a := &TypeDecl{ID: p.NewID(), Name: fmt.Sprintf("Al%s%d", td.Name, len(f.Decls)), Pkg: user, Kind: td.Kind, AliasOf: &TypeRef{Type: td}}
 		f.Decls = append(f.Decls, a)
+		if rapid.IntRange(0, 9).Draw(t, "aliasChain") < 3 {
+			// an alias of the alias: type AlAlT = AlT
+			b := &TypeDecl{ID: p.NewID(), Name: fmt.Sprintf("AlAl%s%d", td.Name, len(f.Decls)), Pkg: user, Kind: td.Kind, AliasOf: &TypeRef{Type: td, Via: a}}
+			f.Decls = append(f.Decls, b)
+			a = b
+			info.AliasChain++
+		}
 		localAlias[user][td] = a
 		return a
 	}
@@ -303,6 +316,12 @@ func Respell(t *rapid.T, p *Prog) RespellInfo {
 		f := tp.Files[0]
 		a := &TypeDecl{ID: p.NewID(), Name: fmt.Sprintf("Al%s%d", td.Name, len(f.Decls)), Pkg: tp, Kind: td.Kind, AliasOf: &TypeRef{Type: td}}
 		f.Decls = append(f.Decls, a)
+		if rapid.IntRange(0, 9).Draw(t, "thirdAliasChain") < 3 {
+			b := &TypeDecl{ID: p.NewID(), Name: fmt.Sprintf("AlAl%s%d", td.Name, len(f.Decls)), Pkg: tp, Kind: td.Kind, AliasOf: &TypeRef{Type: td, Via: a}}
+			f.Decls = append(f.Decls, b)
+			a = b
+			info.AliasChain++
+		}
 		thirdAlias[td] = a
 		return a
 	}
@@ -337,6 +356,14 @@ func Respell(t *rapid.T, p *Prog) RespellInfo {
 			continue
 		}
 		switch rapid.IntRange(0, 9).Draw(t, "respell") {
+		case 4:
+			if sl.inBody {
+				// type lAlN = pkg.T declared in the function body right before the statement
+				sl.ref.Via = &TypeDecl{ID: p.NewID(), Name: fmt.Sprintf("lAl%d", sl.site), Pkg: user, Kind: sl.ref.Type.Kind, AliasOf: &TypeRef{Type: sl.ref.Type}, FuncLocal: true}
+				info.FuncLocalAlias++
+				info.FuncLocalSites = append(info.FuncLocalSites, sl.site)
+				info.Sites[sl.site] = true
+			}
 		case 0, 1:
 			sl.ref.Via = getLocal(user, sl.ref.Type)
 			info.LocalAlias++
@@ -393,6 +420,15 @@ var nearMissLines = []string{
 	"/* @constructor New */",
 	"/* @testonly */",
 	"/*\n@packageonly\n*/",
+	"/*\nExample:\n\n\t// @immutable\n\t// @constructor New\n\ttype P struct{}\n*/", // quoted example code inside a block doc comment
+	"/*\n// @testonly\n// @packageonly\n*/",
+	"/* text\n   // @immutable */",
+	"// @immutable-by-convention: nothing enforces it", // keyword as prefix of a hyphenated word
+	"// @testonly/@packageonly are not used here",
+	"// @immutable: see the docs",
+	"// @testonly-looking, but prose",
+	"// @constructor-like helpers: New",
+	"// @packageonly.internal",
 	"// @mutable",     // inert on a type / on a field of a struct that is not @immutable
 	"// @constructor", // no names: documented as not recognised
 	"// @constructor 9lives",
